@@ -94,6 +94,10 @@ func c12Case(seed int64, idx int) (packedCase, int) {
 			fmt.Fprintf(&sb, "func (r *%s) M%dx%d() {\n\tfmt.Println(\"M%d\", r != nil)\n}\n\n", T, idx, m, m)
 		}
 	}
+	// a method that guards its receiver, and a second type declared after all of T's names, both called on nil references
+	fmt.Fprintf(&sb, "func (r *%s) NS%d(k int) int {\n\tif r == nil {\n\t\treturn -k\n\t}\n\treturn k\n}\n\n", T, idx)
+	fmt.Fprintf(&sb, "type U%d struct {\n\tV%d int\n\tLink%d *U%d\n}\n\n", idx, idx, idx, idx)
+	fmt.Fprintf(&sb, "func (u *U%d) Depth%d() int {\n\tif u == nil {\n\t\treturn 0\n\t}\n\treturn 1 + u.Link%d.Depth%d()\n}\n\n", idx, idx, idx, idx)
 	alias := ""
 	if rng.Chance(1, 3) {
 		alias = fmt.Sprintf("A%d", idx)
@@ -120,6 +124,11 @@ func c12Case(seed int64, idx int) (packedCase, int) {
 		fmt.Fprintf(&sb, "\t%s := &%s{%s}\n", in, tn, strings.Join(fs, ", "))
 	}
 	sb.WriteString("\tp := a\n\tq := b\n\t_, _, _ = p, q, c\n")
+	fmt.Fprintf(&sb, "\tvar z *%s\n\tvar zu *U%d\n\tu2 := &U%d{V%d: 1, Link%d: &U%d{V%d: 2}}\n", T, idx, idx, idx, idx, idx, idx)
+	fmt.Fprintf(&sb, "\tfmt.Println(\"nil\", z.NS%d(3), a.NS%d(4), zu.Depth%d(), u2.Depth%d(), u2.Link%d.Link%d.Depth%d())\n", idx, idx, idx, idx, idx, idx, idx)
+	if hasNext {
+		fmt.Fprintf(&sb, "\tfmt.Println(\"nilnext\", c.Next%d.NS%d(5))\n", idx, idx)
+	}
 	if hasNext {
 		fmt.Fprintf(&sb, "\ta.Next%d = b\n\tb.Next%d = c\n", idx, idx)
 	}
@@ -338,7 +347,7 @@ func c12RunTable(c c12TableCase) (string, int) {
 var c12Budget = core.Budget{MaxSteps: 400000, MaxDepth: 200, MaxLen: 1 << 14, MaxOut: 1 << 20}
 
 func runC12(r *core.Run) {
-	r.SetRule("script level: generated struct types (0-200 fields over 9 field types, up to 50 methods, optional self-reference and alias type), three instances plus aliases, 10-40 random field stores (constants, nil), type-revealing compound updates, reads and method calls through every reference, then a dump of every field of every instance; junk names interned first to move the field/method indexes. table level: random Set/Assign/Get/Delete/Copy histories in fill/drain/churn phases with keys drawn from clustered residues, the structure checked after every operation. non-trivial = script case accepted by Go with >= 3 lines, table history with >= 10 operations; distinct by text / history")
+	r.SetRule("script level: generated struct types (0-200 fields over 9 field types, up to 50 methods, optional self-reference and alias type), three instances plus aliases, 10-40 random field stores (constants, nil), type-revealing compound updates, reads and method calls through every reference, then a dump of every field of every instance; 0-700 junk names interned first to move the field/method/type indexes; a receiver-guarding method and a later-declared second type are called on nil references; package level: struct types with methods declared in packages whose import path differs from the package name (nested paths, two packages of the same name), used from main through constructors, literals, fields and methods. table level: random Set/Assign/Get/Delete/Copy histories in fill/drain/churn phases with keys drawn from clustered residues, the structure checked after every operation. non-trivial = script case accepted by Go with >= 3 lines, table history with >= 10 operations; distinct by text / history")
 	r.Assume("Go toolchain (GOARCH=386) for the script level; map[int]Value plus the robin-hood invariants (displacement equals stored distance, no gap before a displaced entry, distances grow by at most one, no duplicate key, total equals occupancy and stays within the load limit, power-of-two size >= 16) for the table level")
 	n := r.N(300, 12000)
 	cases := make([]packedCase, n)
@@ -349,6 +358,9 @@ func runC12(r *core.Run) {
 	res := runPackedPrep(r, "st", c12Prelude, cases, 100, c12Budget, func(m *core.Machine, i int) {
 		rng := core.Derive(r.Seed, "c12-junk", i)
 		junk := rng.Intn(130)
+		if rng.Chance(1, 4) {
+			junk = rng.Range(130, 700) // type and name indexes beyond 8 and 9 bits
+		}
 		for k := 0; k < junk; k++ {
 			m.VM.Set(fmt.Sprintf("junk.j%d", k), goatlang.Nil())
 		}
@@ -387,6 +399,7 @@ func runC12(r *core.Run) {
 			r.Sample(map[string]any{"fields": fields[i], "source_excerpt": excerpt(cases[i].Decl, 25)})
 		}
 	}
+	c12RunPkgCases(r)
 	nt := r.N(6000, 400000)
 	core.Parallel((nt+199)/200, func(chunk int) {
 		for i := chunk * 200; i < (chunk+1)*200 && i < nt; i++ {
@@ -411,6 +424,88 @@ func runC12(r *core.Run) {
 	})
 }
 
+// c12PkgCase: struct types and methods that live in imported packages.
+func c12PkgCase(seed int64, idx int) core.RefCase {
+	rng := core.Derive(seed, "c12-pkg", idx)
+	root := fmt.Sprintf("ref/k%06d", idx)
+	dir := root + fmt.Sprintf("/cmd%06d", idx)
+	paths := []string{"geom", "shapes/geom", "a/b/geom", "vec"}
+	p1 := core.Pick(rng, paths)
+	two := rng.Bool()
+	p2 := "other/" + p1[strings.LastIndex(p1, "/")+1:] // same package name under another path
+	name := p1[strings.LastIndex(p1, "/")+1:]
+	lib := func(tag string, k int) string {
+		var sb strings.Builder
+		fmt.Fprintf(&sb, "package %s\n\nimport \"fmt\"\n\n", name)
+		fmt.Fprintf(&sb, "type P struct {\n\tX int\n\tY int\n\tTag string\n}\n\n")
+		fmt.Fprintf(&sb, "func (p *P) Move(dx int) {\n\tp.X += dx * %d\n}\n\n", k)
+		fmt.Fprintf(&sb, "func (p *P) Show() string {\n\tif p == nil {\n\t\treturn \"%s-nil\"\n\t}\n\treturn \"%s\" + fmt.Sprint(p.X, p.Y, p.Tag)\n}\n\n", tag, tag)
+		fmt.Fprintf(&sb, "func New(x int) *P {\n\treturn &P{X: x, Y: x * %d, Tag: \"%s\"}\n}\n\n", k+1, tag)
+		fmt.Fprintf(&sb, "type Q struct {\n\tP *P\n\tN int\n}\n\n")
+		fmt.Fprintf(&sb, "func (q *Q) Sum() int {\n\treturn q.P.X + q.N + %d\n}\n\n", k)
+		return sb.String()
+	}
+	files := map[string]string{root + "/" + p1 + "/" + name + ".go": lib("g1", rng.Range(1, 5))}
+	var sb strings.Builder
+	sb.WriteString("package main\n\nimport (\n\t\"fmt\"\n")
+	a1, a2 := name, "gb"
+	if two || rng.Bool() {
+		a1 = "ga"
+		fmt.Fprintf(&sb, "\tga \"%s/%s\"\n", root, p1)
+	} else {
+		fmt.Fprintf(&sb, "\t\"%s/%s\"\n", root, p1)
+	}
+	if two {
+		files[root+"/"+p2+"/"+name+".go"] = lib("g2", rng.Range(6, 9))
+		fmt.Fprintf(&sb, "\tgb \"%s/%s\"\n", root, p2)
+	}
+	sb.WriteString(")\n\n")
+	fmt.Fprintf(&sb, "type L struct {\n\tG *%s.P\n\tK int\n}\n\n", a1)
+	fmt.Fprintf(&sb, "func (l *L) Show() string {\n\treturn l.G.Show() + fmt.Sprint(l.K)\n}\n\n")
+	sb.WriteString("func main() {\n")
+	x, d := rng.Intn(20), rng.Intn(9)
+	fmt.Fprintf(&sb, "\ta := %s.New(%d)\n\tb := &%s.P{X: %d}\n\ta.Move(%d)\n\tb.Move(%d)\n\tb.Tag = \"lit\"\n", a1, x, a1, d, d, x)
+	fmt.Fprintf(&sb, "\tq := &%s.Q{P: a, N: %d}\n\tl := &L{G: b, K: %d}\n\tvar z *%s.P\n", a1, d, x, a1)
+	sb.WriteString("\tfmt.Println(a.Show(), b.Show(), q.Sum(), l.Show(), z.Show(), q.P.Show())\n")
+	sb.WriteString("\tf := a.Show\n\ta.Move(1)\n\tfmt.Println(f(), a.X, b.Y)\n")
+	if two {
+		fmt.Fprintf(&sb, "\tc := %s.New(%d)\n\tc.Move(2)\n\tq2 := &%s.Q{P: c, N: 1}\n\tvar z2 *%s.P\n", a2, x+1, a2, a2)
+		sb.WriteString("\tfmt.Println(c.Show(), q2.Sum(), z2.Show(), a.Show())\n")
+	}
+	sb.WriteString("}\n")
+	files[dir+"/main.go"] = sb.String()
+	return core.RefCase{Files: files, MainDir: dir}
+}
+
+func c12RunPkgCases(r *core.Run) {
+	n := r.N(60, 1500)
+	var cases []core.RefCase
+	for i := 0; i < n; i++ {
+		cases = append(cases, c12PkgCase(r.Seed, i))
+	}
+	refs, err := core.RunRef(cases)
+	if err != nil {
+		r.Inconclusive("reference_executor_failed")
+		return
+	}
+	core.Parallel(n, func(i int) {
+		r.Eval(1)
+		if refs[i].Rejected {
+			r.Count("rejected_by_go", 1)
+			r.NoteReject(firstLine(refs[i].RejectMsg))
+			return
+		}
+		m := core.NewMachine(core.VMOpts{Optimize: i%2 == 0, Obs: core.NewObs(core.SmallBudget, false, nil)})
+		o := m.LoadMain(core.MapFS(cases[i].Files), cases[i].MainDir)
+		if what := compareWithGo(refs[i], o); what != "" {
+			r.Violate(core.Violation{Check: "c12-pkg", Index: i, What: "types and methods of imported packages: " + what, Case: cases[i], Expected: refs[i].Out, Observed: o, Extra: firstDiff(refs[i].Out, o.Out)})
+			return
+		}
+		r.Distinct(treeKey(cases[i].Files))
+		r.Count("package_level_cases", 1)
+	})
+}
+
 func replayC12(r *core.Run, v *core.Violation) {
 	if v.Check == "c12-table" {
 		var c c12TableCase
@@ -428,6 +523,9 @@ func replayC12(r *core.Run, v *core.Violation) {
 	res := runPackedPrep(r, "str", c12Prelude, []packedCase{c}, 1, c12Budget, func(m *core.Machine, i int) {
 		rng := core.Derive(v.Seed, "c12-junk", v.Index)
 		junk := rng.Intn(130)
+		if rng.Chance(1, 4) {
+			junk = rng.Range(130, 700) // type and name indexes beyond 8 and 9 bits
+		}
 		for k := 0; k < junk; k++ {
 			m.VM.Set(fmt.Sprintf("junk.j%d", k), goatlang.Nil())
 		}
